@@ -15,9 +15,11 @@
 //     the checkpoint was never issued;
 //   - submits truly bad signatures (validator key over a fabricated batch) as a control: they must
 //     jail, otherwise the "never jailed" verdicts would be vacuous (INCONCLUSIVE);
-//   - at every prune (h%50==0, age > 300) decides from the recorded evidence sets and the snapshot
-//     shares which validators may be jailed: nobody who supplied evidence for the message they are
-//     jailed for, and nobody at all when fewer than 10 % of the snapshot shares attested.
+//   - at every prune (h%50==0, age > 300) decides from the recorded evidence sets (whose
+//     MsgAddEvidence the chain accepted, at any time in the message's life - also before the
+//     relayer replaced its error report by a transaction report) and the snapshot shares which
+//     validators may be jailed: nobody who supplied evidence for the message they are jailed for,
+//     and nobody at all when fewer than 10 % of the snapshot shares attested.
 package c13
 
 import (
@@ -81,12 +83,12 @@ func init() {
 	fw.Register(&fw.Prop{
 		ID:    "C13",
 		Level: "exploration",
-		Rule: "Seed-determined list of histories (quick 15 x 450 blocks, thorough 200 x 900 blocks) of the real app: random bridge traffic " +
+		Rule: "Seed-determined list of histories (quick 45 x 450 blocks, thorough 200 x 900 blocks) of the real app: random bridge traffic " +
 			"(sends, batches built at h%50==0, gas estimates -> election, confirmations before/after the election, time-outs, re-builds, executed claims) " +
-			"and cross-chain messages (scheduler jobs) with drawn evidence plans (none / <10% / =10% / 10-35% / ~60% / >=2/3 split / undelivered) aged until pruned. " +
+			"and cross-chain messages (scheduler jobs) with drawn evidence plans (none / <10% / =10% / 10-35% / ~60% / >=2/3 split / undelivered / re-delivered: error report -> attestations -> transaction report -> attestations) aged until pruned. " +
 			"'evaluations' counts oracle decisions: one per bad-signature-evidence submission (fork or real tx; who may be jailed) and one per (newly jailed or attesting validator x pruned message). " +
 			"A distinct non-trivial case is a distinct (checkpoint stage, batch state at replay time, subject variant, submitter class, outcome) evidence tuple or a distinct " +
-			"(evidence-share bucket, delivery kind, #attesters, #jailed) prune tuple.",
+			"(evidence-share bucket, delivery kind, shares attesting before/after a re-delivery, #attesters, #jailed) prune tuple.",
 		Assumptions: []string{
 			"'issued' = BytesToSign of a batch stored in skyway state at some block boundary (what pigeons are handed for signing); every batch state change is visible at a boundary because batches are built/re-estimated only in end blockers",
 			"genuine signatures are produced with the validators' registered keys over exactly those bytes, with the personal-message prefix pigeons use",
@@ -96,7 +98,8 @@ func init() {
 		},
 		Cases:       cases,
 		Run:         run,
-		MinCounters: []string{"checkpoints_archived:built", "checkpoints_archived:re-estimated", "confirmations_archived", "replay_fork", "replay_realtx", "control_bad_sig_jailed", "prune_events", "prune_legit_jailings"},
+		MinCounters: []string{"checkpoints_archived:built", "checkpoints_archived:re-estimated", "confirmations_archived", "replay_fork", "replay_realtx", "control_bad_sig_jailed", "prune_events", "prune_legit_jailings",
+			"prune_redelivered_evidence_before_and_after"},
 		Workers:     16,
 		TimeoutS:    3600, // generous: the watchdog only guards against hangs (a 900-block history is ~25 s CPU)
 	})
